@@ -203,6 +203,22 @@ func c01Gen(rt *rapid.T) wProg {
 			} else {
 				p.Ops = append(p.Ops, pubs...)
 			}
+		case x < 65:
+			// everybody leaves; at the very moment the idle timer fires one session attaches again and
+			// publishes while another one attaches (a slow store from there on): the instance which is
+			// on its way out and the one which is being loaded must not both hand out numbers
+			var leave []wOp
+			for s := range p.Sess {
+				leave = append(leave, wOp{K: "leave", S: s, T: "g0"})
+			}
+			a := gInt(rt, 0, len(p.Sess)-1, "a")
+			b := (a + 1 + gInt(rt, 0, len(p.Sess)-2, "b")) % len(p.Sess)
+			p.Ops = append(p.Ops, wOp{K: "lat"})
+			p.Ops = append(p.Ops, leave...)
+			p.Ops = append(p.Ops, wOp{K: "sub", S: a, T: "g0", At: "g0", AtUs: gPick(rt, []int{0, 0, 0, 1, -1}, "atus")},
+				wOp{K: "lat", R: [][2]int{{gPick(rt, []int{1, 2, 3}, "l1"), 0}, {gPick(rt, []int{0, 1, 5}, "l2"), 0}}},
+				wOp{K: "par", Par: []wOp{{K: "pub", S: a, T: "g0"}, {K: "sub", S: b, T: "g0"}}},
+				wOp{K: "pub", S: b, T: "g0"}, wOp{K: "pub", S: a, T: "g0"}, wOp{K: "sub", S: a, T: "g0"}, wOp{K: "pub", S: a, T: "g0"})
 		case x < 68:
 			s := gInt(rt, 0, len(p.Sess)-1, "s")
 			op := wOp{K: "sub", S: s, T: gTopicFor(rt, p.Sess[s], false)}
